@@ -25,6 +25,9 @@ type Prog struct {
 	Ops  []Op                   `json:"ops"`
 	Term string                 `json:"term"` // bindings, fresh, null, nonobject, throw, loop, emitbad, retbad, ifeq
 	Kvs  map[string]interface{} `json:"kvs,omitempty"`
+	// InPlace: the native rendering deletes and overwrites top-level bindings in the very map it was given (no private
+	// copy first).  Same effects in the model: FuncAction.Exec hands an action its own copy (D54).
+	InPlace bool `json:"in_place,omitempty"`
 	// TouchProps: the ECMAScript rendering also assigns to a top-level member of _.props (no effect in the model:
 	// the script gets its own top-level copy, so neither the caller's map nor a later execution sees it)
 	TouchProps bool        `json:"touch_props,omitempty"`
@@ -134,7 +137,7 @@ func (p *Prog) Native(exeOnError bool) core.Action {
 		if bs != nil {
 			b = match.Bindings(canonCopy(map[string]interface{}(bs)).(map[string]interface{}))
 		}
-		if p.readOnly() {
+		if p.readOnly() || p.InPlace {
 			// a native action that does not change the bindings hands
 			// back the very map it was given (as the engine's own nil
 			// FuncAction does): the engine must not write into it
@@ -407,6 +410,13 @@ func (g *G) act(guard bool) *Act {
 	if g.chance(0.3) {
 		a.Native = true
 		a.ExeOnError = g.chance(0.5)
+		hasPoke := false
+		for _, op := range a.P.Ops {
+			if op.Kind == "poke" {
+				hasPoke = true // below the top level a native action works on what it was given: outside C06/C18
+			}
+		}
+		a.P.InPlace = !hasPoke && g.chance(0.4)
 	} else if g.chance(0.15) {
 		a.P.TouchProps = true
 	}
